@@ -6,6 +6,9 @@ Model of the hand-written `Serialize` implementations for the header part of an 
 the JSON carries, plus the image-level `Pe::base_relocs` extraction (`src/pe64/base_relocs.rs`).
 Derived (`#[derive(Serialize)]`) field-by-field output of the `image.rs` structs is the accessor
 value by construction of the derive; `serde_json` itself is trusted.
+Second half of the file: the JSON value type `Json`, the text `serde_json` prints for it
+(`Json.print`) and a strict reader (`Json.parse`) used to state well-formedness.  The serializer of
+the whole image (`View.serializePe`) is Model/JsonDirs.lean.
 -/
 namespace Pelite.Pe
 
@@ -109,8 +112,11 @@ def field (j : Json) (name : String) : Option Json :=
 /-! ### the printed text -/
 
 def hexDigitL (n : Nat) : Nat := if n < 10 then 48 + n else 87 + n      -- b"0123456789abcdef"
-/-- decimal digits (`itoa`) -/
-def decimal (n : Nat) : List Nat := (Nat.toDigits 10 n).map Char.toNat
+/-- decimal digits (`itoa`): no sign, no leading zero, "0" for zero -/
+def decimal (n : Nat) : List Nat :=
+  if n < 10 then [48 + n] else decimal (n / 10) ++ [48 + n % 10]
+termination_by n
+decreasing_by omega
 
 /-- src: serde_json/ser.rs `ESCAPE` table + `write_char_escape`: one byte of a string -/
 def escByte (b : Nat) : List Nat :=
@@ -148,6 +154,149 @@ def printMembers : List (List Nat × Json) → List Nat
   | [(k, v)] => printStr k ++ [58] ++ print v
   | (k, v) :: m :: rest => printStr k ++ [58] ++ print v ++ [44] ++ printMembers (m :: rest)
 end
+
+/-! ### a strict reader (specification side: used to STATE that the printed text is well formed; the driver does not use it)
+
+A checker for a subset of RFC 8259 JSON texts over byte lists: it accepts no whitespace, only unsigned
+integers without leading zeros, only the escapes `\" \\ \/ \b \f \n \r \t` and `\u00XY` (value < 0x80);
+raw bytes < 0x20 inside a string are rejected; no trailing commas.  It may reject well-formed texts, it
+accepts no ill-formed one (modulo UTF-8 validity of the bytes ≥ 0x80 inside strings, which are taken
+verbatim).  `Lemmas/Json.lean`: `parse (print j) = some j` for every `j`. -/
+
+/-- ASCII `0`..`9` -/
+def isDigit (c : Nat) : Bool := decide (48 ≤ c) && decide (c ≤ 57)
+
+/-- value of a run of ASCII digits, most significant first -/
+def digitsVal (ds : List Nat) : Nat := ds.foldl (fun a d => 10 * a + (d - 48)) 0
+
+/-- at least two digits and the first one is `0` -/
+def leadingZero : List Nat → Bool
+  | d :: _ :: _ => d == 48
+  | _ => false
+
+/-- `int` of RFC 8259 without sign: the longest run of digits; empty run and leading zero rejected -/
+def readNum (t : List Nat) : Option (Nat × List Nat) :=
+  if (t.takeWhile isDigit).isEmpty || leadingZero (t.takeWhile isDigit) then none
+  else some (digitsVal (t.takeWhile isDigit), t.dropWhile isDigit)
+
+/-- strip the given bytes from the front -/
+def expect : List Nat → List Nat → Option (List Nat)
+  | [], t => some t
+  | _ :: _, [] => none
+  | p :: ps, c :: t => if p = c then expect ps t else none
+
+/-- value of one hex digit, either case -/
+def hexVal (c : Nat) : Option Nat :=
+  if 48 ≤ c ∧ c ≤ 57 then some (c - 48)
+  else if 97 ≤ c ∧ c ≤ 102 then some (c - 87)
+  else if 65 ≤ c ∧ c ≤ 70 then some (c - 55)
+  else none
+
+/-- the byte a two-character escape `\e` stands for -/
+def unescChar (e : Nat) : Option Nat :=
+  if e = 34 then some 34            -- \"
+  else if e = 92 then some 92       -- \\
+  else if e = 47 then some 47       -- \/
+  else if e = 98 then some 8        -- \b
+  else if e = 102 then some 12      -- \f
+  else if e = 110 then some 10      -- \n
+  else if e = 114 then some 13      -- \r
+  else if e = 116 then some 9       -- \t
+  else none
+
+/-- the rest of a string after the opening quote: the bytes it denotes and the input after the
+closing quote -/
+def readStrBody : List Nat → Option (List Nat × List Nat)
+  | [] => none
+  | c :: r =>
+    if c = 34 then some ([], r)
+    else if c = 92 then
+      match r with
+      | [] => none
+      | e :: r1 =>
+        if e = 117 then
+          match r1 with
+          | a :: b :: x :: y :: r2 =>
+            if a = 48 ∧ b = 48 then
+              match hexVal x, hexVal y with
+              | some hx, some hy =>
+                if 16 * hx + hy < 128 then
+                  (readStrBody r2).map (fun p => ((16 * hx + hy) :: p.1, p.2))
+                else none
+              | _, _ => none
+            else none
+          | _ => none
+        else
+          match unescChar e with
+          | some v => (readStrBody r1).map (fun p => (v :: p.1, p.2))
+          | none => none
+    else if c < 32 then none
+    else (readStrBody r).map (fun p => (c :: p.1, p.2))
+
+/-- a string: `"` body -/
+def readStr : List Nat → Option (List Nat × List Nat)
+  | [] => none
+  | c :: r => if c = 34 then readStrBody r else none
+
+mutual
+/-- one value at the front of the input -/
+def parseVal : Nat → List Nat → Option (Json × List Nat)
+  | 0, _ => none
+  | _ + 1, [] => none
+  | fuel + 1, c :: r =>
+    if isDigit c then (readNum (c :: r)).map (fun p => (Json.num p.1, p.2))
+    else if c = 110 then (expect [117, 108, 108] r).map (fun r' => (Json.null, r'))
+    else if c = 116 then (expect [114, 117, 101] r).map (fun r' => (Json.bool true, r'))
+    else if c = 102 then (expect [97, 108, 115, 101] r).map (fun r' => (Json.bool false, r'))
+    else if c = 34 then (readStrBody r).map (fun p => (Json.str p.1, p.2))
+    else if c = 91 then
+      match r with
+      | [] => none
+      | d :: r' =>
+        if d = 93 then some (Json.arr [], r')
+        else (parseElems fuel (d :: r')).map (fun p => (Json.arr p.1, p.2))
+    else if c = 123 then
+      match r with
+      | [] => none
+      | d :: r' =>
+        if d = 125 then some (Json.obj [], r')
+        else (parseMembers fuel (d :: r')).map (fun p => (Json.obj p.1, p.2))
+    else none
+/-- `value (, value)* ]` -/
+def parseElems : Nat → List Nat → Option (List Json × List Nat)
+  | 0, _ => none
+  | fuel + 1, t =>
+    match parseVal fuel t with
+    | none => none
+    | some (_, []) => none
+    | some (v, c :: r) =>
+      if c = 93 then some ([v], r)
+      else if c = 44 then (parseElems fuel r).map (fun p => (v :: p.1, p.2))
+      else none
+/-- `string : value (, string : value)* }` -/
+def parseMembers : Nat → List Nat → Option (List (List Nat × Json) × List Nat)
+  | 0, _ => none
+  | fuel + 1, t =>
+    match readStr t with
+    | none => none
+    | some (_, []) => none
+    | some (k, d :: r1) =>
+      if d = 58 then
+        match parseVal fuel r1 with
+        | none => none
+        | some (_, []) => none
+        | some (v, e :: r2) =>
+          if e = 125 then some ([(k, v)], r2)
+          else if e = 44 then (parseMembers fuel r2).map (fun p => ((k, v) :: p.1, p.2))
+          else none
+      else none
+end
+
+/-- a whole text: one value and nothing after it -/
+def parse (t : List Nat) : Option Json :=
+  match parseVal (t.length + 1) t with
+  | some (j, []) => some j
+  | _ => none
 
 end Json
 
